@@ -187,6 +187,11 @@ PROPS = {
                  "cannot fail on the labels and indices the verifier uses, so a wrong seed yields a value, not an error. The specification of the residual (C02) and of the weights (C08) "
                  "does not mention the seed. Not decided: that a different seed yields a different value (PRF property of Blake2b); the full iff-characterisation of Ok/Err "
                  "(needed to state that the verdict is literally the same function with and without a seed) is not written.",
+        "claim_refusals": "Refusals (obligations C10.verify_refuses_only_for_a_reason, C03.batch_refuses_only_for_a_reason, C03.consistency_refuses_only_inconsistent): verify_batch, verify and the "
+                 "consistency check return Err only if the batch is empty / length-mismatched, its members disagree (batch_consistent), some member is not well shaped (L/R counts, 2^rounds == "
+                 "bits*aggregation, a point that does not decode) or the error is ProofError::VerificationFailed (a transcript rejection or the final equation) - a condition that mentions "
+                 "neither the recovery seeds nor the requested mode; every size-overflow and nonce-derivation exit is proved unreachable for such batches. So a refusal that is not a "
+                 "VerificationFailed is a function of shapes alone, identical with and without seeds and in all three modes.",
         "assumptions": ["a different seed gives a different mask only under the PRF assumption on keyed Blake2b",
                         "verdict independence is argued from the seed-free residual/weight specifications; an Err-characterisation of verify is not proved"],
     },
@@ -272,3 +277,10 @@ PROPS = {
         "assumptions": ["same as C11 for the chain model", "Iterator::any / zip are modelled by their documented sequence semantics"],
     },
 }
+
+# the "refused only for a reason" obligations are shared by C10 (verdict independence), C03 (the 'only if' of batch refusal) and C01 (the verifier does
+# not refuse honest proofs for a spurious reason)
+_REFUSALS = PROPS["C10"].pop("claim_refusals")
+PROPS["C10"]["claim"] += " " + _REFUSALS
+PROPS["C03"]["claim"] += " " + _REFUSALS
+PROPS["C01"]["claim"] += " Verifier side of completeness at code level: " + _REFUSALS
